@@ -142,6 +142,18 @@ func (r *Report) Finish() int {
 			fmt.Fprintf(os.Stderr, "unconfirmed (not reported): %s :: %s\n", f.Class, note)
 			continue
 		}
+		if hp := os.Getenv("VERIF_HARVEST"); hp != "" {
+			if fh, err := os.OpenFile(hp, os.O_APPEND|os.O_CREATE|os.O_WRONLY, 0o644); err == nil {
+				lines := strings.Split(f.Detail, "\n")
+				w := lines[0]
+				what := ""
+				if len(lines) > 1 {
+					what = strings.TrimSpace(lines[len(lines)-1])
+				}
+				fmt.Fprintf(fh, "known: property=%s class=%s\n       witness=%s\n       what=%s\n", f.Prop, f.Class, w, what)
+				fh.Close()
+			}
+		}
 		dir := filepath.Join(r.VerifDir, "replays", r.Prop)
 		_ = os.MkdirAll(dir, 0o755)
 		path := filepath.Join(dir, classHash(f.Class)+".json")
